@@ -38,12 +38,13 @@ def verify(wt, vdir, seed_id):
     demo = os.path.join(vdir, "demo_test.go")
     meta = json.load(open(os.path.join(vdir, "meta.json")))
     head = open(demo).read(3000)
-    m = re.search(r"(pkg/[\w/]+/\w+_test\.go)", head)
+    m = re.search(r"((?:pkg|cmd)/[\w/]+/\w+_test\.go)", head)
     if not m:
         print("cannot find demo placement"); return 1
     demo_dst = m.group(1)
     m2 = re.search(r"-run '?\"?(\w+)", head)
     demo_run = m2.group(1) if m2 else "Test"
+    race = "-race " if "-race" in head else ""
     pkgs = sorted(set(os.path.dirname(f) for f in re.findall(r"^diff --git a/(\S+)", open(patch).read(), re.M)))
     log = []
     sh("git checkout -q -- . && git clean -fdq pkg cmd", wt)
@@ -59,10 +60,10 @@ def verify(wt, vdir, seed_id):
             print("existing tests fail with change:", p, bad, tail); sh("git checkout -q -- .", wt); return 1
     shutil.copy(demo, os.path.join(wt, demo_dst))
     demo_pkg = os.path.dirname(demo_dst)
-    rc_with, out_with = sh(f"go test -count=1 -timeout 120s -run '{demo_run}' ./{demo_pkg}/ 2>&1", wt, timeout=300)
+    rc_with, out_with = sh(f"go test {race}-count=1 -timeout 120s -run '{demo_run}' ./{demo_pkg}/ 2>&1", wt, timeout=600)
     log.append(f"with change: demo {demo_run} in {demo_pkg}: rc={rc_with} (expected non-zero)")
     sh(f"git apply -R {patch}", wt)
-    rc_without, out_without = sh(f"go test -count=1 -timeout 120s -run '{demo_run}' ./{demo_pkg}/ 2>&1", wt, timeout=300)
+    rc_without, out_without = sh(f"go test {race}-count=1 -timeout 120s -run '{demo_run}' ./{demo_pkg}/ 2>&1", wt, timeout=600)
     log.append(f"without change: demo {demo_run}: rc={rc_without} (expected 0)")
     os.remove(os.path.join(wt, demo_dst))
     sh("git checkout -q -- . && git clean -fdq pkg cmd", wt)
